@@ -124,7 +124,10 @@ Proof.
     destruct (save_direct _ o) as [s' r]. exact H2.
   - exact Hu.
   - unfold data_of. rewrite Ho. destruct (r_data (o_rec ob)) as [d|]; [|exact Hu].
-    cbn [fst]. destruct (kv_get d k); [apply uh_hupd; [reflexivity | exact Hu] | exact Hu].
+    destruct (kv_get d k); [|exact Hu].
+    pose proof (uh_hupd u s o (fun r => set_data r (Some (kv_del d k))) (fun _ => eq_refl) Hu) as H1.
+    pose proof (uh_save u _ o (eq_trans (hupd_plan _ _ _) Hp) H1) as H2.
+    destruct (save_direct _ o) as [s' r]. exact H2.
   - rewrite (regenerate_ff _ _ _ (inv_ffnd _ _ _ _ _ I) Ho). cbn [fst].
     destruct (regen_ust (is_uid u) (is_usr u) (usr_codec u) _ _ _ _ _ _ I Ho (Nat.le_0_l o) (fun x => x)) as (_ & _ & Unew).
     exists (rg_ob2 s o ob). split; [apply regen_handle; [eapply inv_ffnd; exact I | exact Ho]|].
